@@ -18,6 +18,8 @@ pub fn units(tier: &str, _seed: u64) -> Vec<String> {
         "1/U:CAL:GASNATURAL;1/U:ACS:GASNATURAL;1/X;1/~O:CAL;1/~O:ACS;5/U:CAL:ELECTRICIDAD;5/U:REF:ELECTRICIDAD;5/X;5/~O:CAL;5/~O:REF",
         // heating (positive) and cooling (negative) outputs of one system
         "1/U:CAL:ELECTRICIDAD;1/U:REF:ELECTRICIDAD;1/X;1/O:CAL;1/O:REF",
+        // a subsystem with auxiliaries and declared outputs whose consumption is declared under another id
+        "3/X;3/~O:CAL;3/~O:ACS;1/U:CAL:GASNATURAL;1/U:ACS:GASNATURAL;U:ILU:ELECTRICIDAD",
     ];
     let mut v = vec![];
     for s in shapes {
@@ -92,7 +94,7 @@ pub fn scenario(u: &Unit) -> String {
                     (Some(s), Some(w)) => ob(&tag("sum=declared"), s.ident(w)),
                     _ => ob(&tag("sum=declared"), f()),
                 }
-            } else if srvs.len() > 1 {
+            } else {
                 // shares proportional to the magnitude of the output energy of each service
                 let mut q: Vec<(String, F)> = vec![];
                 for l in lines.iter().filter(|l| l.kind == 'O' && l.id.unwrap_or(0) == id) {
